@@ -177,3 +177,5 @@ m('twin-c15-y4-guard-eq', 'C15', 'tides/multilayer/stress_strain.py', "        y
 m('c19-visc-floor-wrong', 'C19', 'cooling/cooling_models.py', "layer_thickness**2 / viscosity\n", "layer_thickness**2 / ((viscosity > 1.) * viscosity + (viscosity <= 1.) * 50.)\n", rule='R19.4')
 m('twin-c19-visc-floor', 'C19', 'cooling/cooling_models.py', "layer_thickness**2 / viscosity\n", "layer_thickness**2 / ((viscosity > 1.) * viscosity + (viscosity <= 1.) * 1.)\n", expect='silent')
 m('c19-dT-cap-wrong', 'C19', 'cooling/cooling_models.py', "    cooling_flux = thermal_conductivity * delta_temp / boundary_layer_thickness\n\n    return cooling_flux, boundary_layer_thickness, rayleigh, nusselt", "    cooling_flux = thermal_conductivity * ((delta_temp < 2000.) * delta_temp + (delta_temp >= 2000.) * 200.) / boundary_layer_thickness\n\n    return cooling_flux, boundary_layer_thickness, rayleigh, nusselt", rule='R19.4')
+m('c16-scale-stale-thickness', 'C16', 'structures/world_builder/world_builder.py', "        scaled_config['layers'][layer_name]['thickness'] = scaled_config['layers'][layer_name]['radius'] - \\\n                                                           scaled_config['layers'][layer_name]['radius_inner']\n", "", rule='R16.4')
+m('twin-c16-scale-no-inner-key', 'C16', 'structures/world_builder/world_builder.py', "        scaled_config['layers'][layer_name]['radius_inner'] = prev_layer_radius\n\n        # Use this layer's upper radius as the next layer's lower radius\n        prev_layer_radius = scaled_config['layers'][layer_name]['radius']\n\n        # Update other items\n        scaled_config['layers'][layer_name]['thickness'] = scaled_config['layers'][layer_name]['radius'] - \\\n                                                           scaled_config['layers'][layer_name]['radius_inner']\n", "        scaled_config['layers'][layer_name]['thickness'] = scaled_config['layers'][layer_name]['radius'] - prev_layer_radius\n        prev_layer_radius = scaled_config['layers'][layer_name]['radius']\n", expect='silent')
